@@ -520,6 +520,47 @@ def stack_programs(h: Harness, spec, rng):
     h.count("stack-wrapped-fields:programs", got)
 
 
+def postponed_annotations(h: Harness, rng):
+    """a grammar declared in a module with `from __future__ import annotations` (every reading of the annotations builds new refinement
+    objects): in every representation genotypes created at different moments can be crossed over and mutated, nothing fails with a
+    foreign error, and the offspring map to well-typed programs"""
+    import futgrammar
+    from linear import DSGE, GE, SGE, Stack, safe
+    from geneticengine.random.sources import NativeRandomSource
+    from geneticengine.representations.tree.treebased import TreeBasedRepresentation
+    g = futgrammar.grammar()
+    for trial in range(h.n(4, 30)):
+        r = NativeRandomSource(rng.randrange(10**6))
+        reps = [("tree", TreeBasedRepresentation(g, synth.make_decider("grow", 4, r, g))), ("GE", GE(g, synth.make_decider("grow", 4, r, g), gene_length=48)),
+                ("SGE", SGE(g, synth.make_decider("grow", 4, r, g), gene_length=16)), ("DynamicSGE", DSGE(g, 4))]
+        for name, rep in reps:
+            site = f"{name}.operators"
+            st, a = safe(lambda: rep.create_genotype(r))
+            st2, b_ = safe(lambda: rep.create_genotype(r))
+            if st != "ok" or st2 != "ok":
+                continue
+            safe(lambda: rep.genotype_to_phenotype(a))
+            offspring = []
+            for label, op in (("crossover", lambda: list(rep.crossover(r, a, b_))), ("mutate", lambda: [rep.mutate(r, a)]), ("mutate", lambda: [rep.mutate(r, b_)])):
+                st, out = safe(op)
+                h.count(f"postponed-annotations:{name}:{label}")
+                h.seen(f"postponed:{name}:{trial}:{label}", nontrivial=True)
+                if st == "err" and out.startswith("foreign"):
+                    h.fail(site, "foreign-error", f"{label} of two {name} genotypes of a grammar declared under postponed annotations raised {out}", [name, trial, label])
+                elif st == "ok":
+                    offspring += out
+            for geno in [a, b_] + offspring:
+                st, p = safe(lambda: rep.genotype_to_phenotype(geno))
+                if st == "err" and p.startswith("foreign"):
+                    h.fail(f"{name}.genotype_to_phenotype", "foreign-error", f"mapping failed with {p} (grammar declared under postponed annotations)", [name, trial])
+                elif st == "ok":
+                    bad = futgrammar.ill_typed(p)
+                    if bad:
+                        h.fail(f"{name}.genotype_to_phenotype" if name != "tree" else "TreeBasedRepresentation.create_genotype", "ill-typed-program",
+                               f"{bad[0]} in {repr(p)[:160]}", [name, trial])
+                        break
+
+
 def corpus():
     """fixed witnesses of type shapes the generator only meets by luck: size-refined lists whose elements are lists /
     refined values / tuples / unions, nested wrappers"""
@@ -554,6 +595,7 @@ def run(h: Harness):
     cooperative_gp(h, rng)
     dsge_wrapped_union_keys(h, rng)
     stack_wrapped_fields(h, rng)
+    postponed_annotations(h, rng)
     retarget_scenario(h, rng)
     for spec in corpus():
         b = gram.build(spec)
